@@ -285,7 +285,7 @@ func (x *c10World) applyOp(op bfs.Op) (fs []bfs.Finding) {
 	}
 	x.c.Outcome(fmt.Sprintf("%s/fault=%s/%s", real.Name, faulted, errClass(r.err)))
 	if r.panic != "" {
-		add("panic:"+ev.PanicSite(r.panic), fmt.Sprintf("%s(%s) crashed (fault=%q):\n%s", op.Name, op.Arg, faulted, r.panic))
+		add(panicKey(r.panic), fmt.Sprintf("%s(%s) crashed (fault=%q):\n%s", op.Name, op.Arg, faulted, r.panic))
 		return
 	}
 	memAfter := setOf(w.memBlobs())
